@@ -465,5 +465,56 @@ class TxShapes(Family):
         return r, True
 
 
+class EditedBetweenCalls(Family):
+    """ONE CMutableTransaction object is verified at every index 0..len(vin) (the last one out of range), then edited in
+    place by the caller (every edit of the catalogue in turn: fields, appended / popped inputs and outputs) and verified at
+    every index again: each call returns or raises a ValidationError, whatever the object looked like at earlier calls"""
+    name = 'transaction_edited_between_calls'
+    engine = 'E3'
+    nontrivial_rule = 'every verification'
+
+    def cases(self, shard, tier):
+        for nin, nout in ((1, 1), (2, 2), (3, 1)):
+            for ht in (0x01, 0x02, 0x03, 0x81, 0x83):
+                for tmpl in ('cs', 'ms'):
+                    yield (nin, nout, ht, tmpl)
+
+    def check(self, case):
+        from bitcoin.core import ValidationError
+        from bitcoin.core.script import CScript
+        from bitcoin.core.scripteval import VerifyScript
+        nin, nout, ht, tmpl = case
+        sig, pub, pubu = _valid_sig_and_keys()
+        sg = sig[:-1] + bytes([ht])
+        if tmpl == 'cs':
+            ssig, spk, fs = RS.push_encode(sg), RS.push_encode(pub) + b'\xac', FLAGSETS[0]
+        else:
+            ssig, spk, fs = b'\x00' + RS.push_encode(sg), b'\x51' + RS.push_encode(pub) + RS.push_encode(pubu) + b'\x52\xae', FLAGSETS[3]
+        m = C.default_tx(nin, nout)
+        tx = C.lib_tx(m, mutable=True)
+        n = [0]
+
+        def sweep(when):
+            for idx in range(len(m['vin']) + 1):
+                before = tx.serialize()
+                n[0] += 1
+                try:
+                    VerifyScript(CScript(ssig), CScript(spk), tx, idx, flags=L.lib_flags(fs))
+                except ValidationError:
+                    pass
+                except BaseException as e:  # noqa
+                    raise Viol('VerifyScript on ONE mutable transaction %s (idx %d of %d inputs, hashtype %#04x, %s) let %s escape' % (when, idx, len(m['vin']), ht, tmpl, type(e).__name__),
+                               'returns or raises a bitcoin.core.ValidationError', '%s: %s' % (type(e).__name__, str(e)[:100]))
+                if tx.serialize() != before:
+                    raise Viol('VerifyScript changed the mutable transaction it was given (%s)' % when, before.hex()[:80], tx.serialize().hex()[:80])
+        sweep('before any edit')
+        for name, fn in C.inplace_edits(m):
+            if name == 'pop_in' and len(m['vin']) <= 1:
+                continue
+            fn(tx, m)
+            sweep('after the caller\'s in-place edit %s' % name)
+        return 'ok', True, n[0]
+
+
 def families(tier):
-    return [ShortStrings(), CorpusFaults(), LongScripts(), OverflowThenFail(), MultisigCounts(), SigGarbage(), TxShapes()]
+    return [ShortStrings(), CorpusFaults(), LongScripts(), OverflowThenFail(), MultisigCounts(), SigGarbage(), TxShapes(), EditedBetweenCalls()]
